@@ -150,7 +150,9 @@ def make_instance(cls, g):
         return Ellipsoid(6378140.0, 1.0 / 298.257, 7.292e-5)
     if cls == "Minor":
         from pymeeus.Minor import Minor
-        return Minor(2.2091404, 0.8502196, Angle(11.94524), Angle(334.75006), Angle(186.23352), Epoch(1990, 10, 28.54502))
+        # (angles as a caller may give them: also negative, i.e. not yet reduced to [0, 360))
+        return Minor(2.2091404, 0.8502196, Angle(11.94524), Angle(rng.choice([334.75006, -25.24994, -100.5])),
+                     Angle(rng.choice([186.23352, -173.76648])), Epoch(1990, 10, 28.54502))
     mod = A._mod([m for m in A.MODS if hasattr(A._mod(m), cls)][0])
     return getattr(mod, cls)()
 
